@@ -12,7 +12,7 @@ import os
 
 from mc import domains as D
 from mc.engine import BfsPart, InputPart, Viol
-from mc.props import tierops, c12
+from mc.props import tierops, c12, live
 from mc.props.common import IT, PT, Textgrid, PE, call, canon, mk, snap_tg, scratch_dir, constants, wellformed
 
 Interval = constants.Interval
@@ -319,6 +319,18 @@ def parts(tier):
                      "every reachable textgrid, snapshot before/after" % len(TG_EXTRA),
                 bounds={"max_tiers": 3, "depth": "fixed point" if not quick else 4}, max_depth=None if not quick else 4),
     ]
+
+    hseeds = [("I", "t", 0.0, 4.0, D.labelled(x)) for x in D.interval_sets(D.unit_grid(5), 2)] + \
+             [("P", "t", 0.0, 4.0, D.labelled_points(x)) for x in D.point_sets(D.unit_grid(5), 2)]
+    hothers = {"I": tierops.OTHERS_I, "P": tierops.OTHERS_P}
+    hvals = (0.0, 0.5, 1.0, 2.0, 3.0, 4.5)
+    ps.append(InputPart(
+        "tier-history-independence", lambda: live.tier_history_cases(hseeds, hothers, hvals),
+        lambda c: live.check_tier_history(c, hothers, hvals),
+        rule="every (query/copy operation, in-place mutation) sequence on ONE live tier, for all tiers of <=2 entries: afterwards the "
+             "live tier and a fresh tier rebuilt from its observable fields must agree under a battery of ~20 observations as "
+             "receiver and as argument (a query that leaves stale hidden state has changed the receiver)",
+        bounds={"seed_tiers": len(hseeds)}, chunk=16))
 
     def gen_save():
         for ti in range(len(SAVE_TGS)):
